@@ -379,3 +379,11 @@ Theorem C09_fuel_is_never_decisive :
   (forall k n, (40 <= k)%nat -> n < two64 -> Num.digits_fuel k n [] = Num.dec_digits n).
 Proof. split; [exact FuelIndep.json_path_any_fuel|split; [exact FuelIndep.expr_or_any_fuel|split; [exact FuelIndep.path_any_fuel|split; [exact (@FuelIndep.many0_any_fuel)|split; [exact (@FuelIndep.sep_loop_any_fuel)|split; [exact FuelIndep.many0_steps_any_fuel|split; [exact FuelIndep.many0_inner_any_fuel|split; [exact FuelIndep.sep_indices_any_fuel|split; [exact FuelIndep.scan_name_any_fuel|exact FuelIndep.dec_digits_any_fuel_u64]]]]]]]]]. Qed.
 Print Assumptions C09_fuel_is_never_decisive.
+
+(* L2/L3 (second review), the DOMAIN of indices: the theorems about paths quantify over ASTs whose indices are arbitrary
+   integers (IIndex z, ILast z, z : Z) and hold for all of them; Index::Index / Index::LastIndex hold an i32 in the code, and
+   the parser only produces such indices, at every depth (filters, predicates, exists) *)
+From JB Require PathI32.
+Theorem C09_parsed_indices_are_i32 : forall bs ps, PathParse.parse_json_path bs = Ok ps -> PathI32.path_in_i32 ps.
+Proof. exact PathI32.parsed_json_path_indices_are_i32. Qed.
+Print Assumptions C09_parsed_indices_are_i32.
